@@ -1,6 +1,7 @@
 (* C02 correspondence: spin<->binary conversions and edits through live views. *)
 From Coq Require Import List ZArith QArith Qcanon Bool Arith.
 From Dimod Require Import Base.Util Model.Poly Model.HPoly Model.View Model.Penalty.
+From Dimod Require Model.Adj Model.AdjSubstAll Model.IsingQubo Model.SSet Model.SSetVartype Model.PyBqm Gen.Gen_PyBQM.
 Import ListNotations.
 Open Scope Qc_scope.
 
@@ -45,7 +46,23 @@ Inductive case :=
        (samples : list (list (label * Qc)))      (* assignments in the domain of `after` *)
 | HConv (d : dir) (before after : hpoly)
 | ViewRead (n : nat) (d : dir) (vars : list label) (base view : obs)
-| ViewWrite (n : nat) (d : dir) (vars : list label) (base_before : obs) (o : vop) (base_after view_after : obs).
+| ViewWrite (n : nat) (d : dir) (vars : list label) (base_before : obs) (o : vop) (base_after view_after : obs)
+(* binary_quadratic_model.h change_vartype = abc.h substitute_variables on the RAW adjacency structure
+   (_ilinear / _ineighborhood of the cyBQM before and after) *)
+| AdjConv (target : vartype) (before after : Adj.qm)
+(* utilities.py ising_to_qubo / qubo_to_ising run on the very dicts given (insertion order kept) and compared
+   key by key, in order, with the dicts returned *)
+| IQ (h : IsingQubo.hdict) (J : IsingQubo.qdict) (off : Qc) (Qobs : IsingQubo.qdict) (offobs : Qc)
+| QI (Q : IsingQubo.qdict) (off : Qc) (hobs : IsingQubo.hdict) (Jobs : IsingQubo.qdict) (offobs : Qc)
+(* SampleSet.change_vartype: rows, energies, occurrences, labels before and after *)
+| SSConv (target : vartype) (off : Qc) (before after : SSet.sset)
+(* pybqm.py pyBQM.change_vartype (dict back-end, multipliers generated from the source) on the observed _adj dicts *)
+| PyConv (t : Gen_PyBQM.pb_target) (before after : PyBqm.pybqm).
+
+Definition raw_nbh_eqb : Adj.nbh -> Adj.nbh -> bool := list_eqb (pair_eqb Nat.eqb Qc_eqb).
+Definition raw_qm_eqb (a b : Adj.qm) : bool :=
+  list_eqb Qc_eqb (Adj.lin a) (Adj.lin b) && list_eqb raw_nbh_eqb (Adj.adj a) (Adj.adj b)
+  && Qc_eqb (Adj.off a) (Adj.off b) && list_eqb vartype_eqb (Adj.vts a) (Adj.vts b).
 
 Definition old_sample (d : dir) (vars : list label) (s : list (label * Qc)) : sample :=
   fun v => let x := sample_of_list s v in
@@ -80,4 +97,13 @@ Definition check (c : case) : bool :=
                      (obs_poly base_after)
       && poly_coeff_eqb n (convert d vars (obs_poly base_after)) (obs_poly view_after)
       && formula_ok n d vars o base_before base_after
+  | AdjConv target before after =>
+      Adj.inv_b before && Adj.inv_b after
+      && raw_qm_eqb (AdjSubstAll.bqm_change_vartype target before) after
+  | IQ h J off Qobs offobs => IsingQubo.ising_to_qubo_matches h J off Qobs offobs
+  | QI Q off hobs Jobs offobs => IsingQubo.qubo_to_ising_matches Q off hobs Jobs offobs
+  | SSConv target off before after =>
+      SSetVartype.ss_change_vartype_matches target off before (SSet.Ok after)
+  | PyConv t before after =>
+      PyBqm.pb_wfb before && PyBqm.pb_obs_eqb (PyBqm.pb_change_vartype t before) after
   end.
